@@ -467,6 +467,39 @@ func (s *Scope) evalCall(e ECall) Term {
 	}
 	if _, isSel := e.Fun.(EIdent); isSel {
 		switch fname {
+		case "istype", "astype":
+			// dynamic type test / assertion value of an interface value: istype(v, T), astype(v, T);
+			// T is a type name (Int, core.Name) or a string literal for pointer types ("*core.Stream")
+			v := s.Eval(e.Args[0])
+			var tn string
+			switch a := e.Args[1].(type) {
+			case EIdent:
+				tn = a.Name
+			case ESel:
+				if id, ok := a.X.(EIdent); ok {
+					tn = id.Name + "." + a.Name
+				}
+			case ELit:
+				tn = a.Val
+			}
+			if tn == "" {
+				unsupported("%s: second argument must name a type", fname)
+			}
+			var gt types.Type
+			if strings.HasPrefix(tn, "*") {
+				if r := x.resolveTypeName(tn[1:], s.pkg); r.goT != nil {
+					gt = types.NewPointer(r.goT)
+				}
+			} else {
+				gt = x.resolveTypeName(tn, s.pkg).goT
+			}
+			if gt == nil {
+				unsupported("%s: unknown Go type %q", fname, tn)
+			}
+			if fname == "istype" {
+				return x.dynTypeIs(v, gt)
+			}
+			return x.dynValue(v, gt)
 		case "len":
 			a := s.Eval(e.Args[0])
 			if w.IsSeq(a.Sort) {
